@@ -8,6 +8,8 @@
 (*   enf    per channel: cfg.FwrdingPolicy of the registered link (field copy) *)
 (*   el     per channel: EligibleToForward() of the registered link (0/1)      *)
 (*   bw     per channel: link.Bandwidth() read BEFORE the step                 *)
+(*   height Switch.BestHeight() after the step (for an Epoch step: after the    *)
+(*          forwarder has taken the epoch of height hn off its epoch stream)    *)
 (*   res/to/v  for a Fwd step: "fwd" + the channel on which update_add_htlc    *)
 (*          left the node (wire tap at the peer), or "fail" + the failure      *)
 (*          handed back to the incoming link, or "none" (neither seen)         *)
@@ -35,28 +37,31 @@ RecPol(p) == Pol(p.base, p.rate, p.minH, p.maxH, p.delta)
 RecSet(r) == {c \in Chans : r.set[c] = 1}
 
 TInit == /\ adv = [c \in Chans |-> P0] /\ reg = [c \in Chans |-> "none"] /\ enf = adv
-         /\ elig = [c \in Chans |-> FALSE] /\ bw = [c \in Chans |-> 0]
+         /\ elig = [c \in Chans |-> FALSE] /\ bw = [c \in Chans |-> 0] /\ height = Height0
          /\ last = NoLast /\ out = NoOut /\ l = 1
 Reset == /\ Is("Reset")
          /\ adv' = [c \in Chans |-> P0] /\ enf' = adv'
          /\ reg' = [c \in Chans |-> R.init[c]]
          /\ elig' = [c \in Chans |-> R.init[c] = "live"]
-         /\ bw' = RecBw(R) /\ last' = NoLast /\ out' = NoOut
+         /\ bw' = RecBw(R) /\ height' = Height0 /\ last' = NoLast /\ out' = NoOut
 TNext == \/ Reset
          \/ Is("Upd") /\ RecSet(R) # {} /\ UpdatePolicies(RecSet(R), RecPol(R.pol))
          \/ Is("Add") /\ Add(R.c)
          \/ Is("Remove") /\ Remove(R.c)
          \/ Is("Flush") /\ Flush(R.c)
          \/ Is("Unflush") /\ Unflush(R.c)
+         \/ Is("Epoch") /\ Epoch(R.hn)
          \/ Is("Fwd") /\ RecReq(R) \in Reqs /\ ForwardWith(RecH(R), RecReq(R), RecBw(R), RecOut(R))
          \/ (l = Len(Trace) + 1 /\ UNCHANGED <<vars, l>>)
 TSpec == TInit /\ [][TNext]_<<vars, l>>
 
 Seen == l > 1
 Shown(s) == IF s = "gone" THEN "none" ELSE s
-\* the fixture is the one the model assumes (height, link eligibility follows Add/Flush/Unflush)
-EnvAsModel == Seen => /\ Last.height = Height
-                      /\ \A c \in Chans : Live(c) => (Last.el[c] = 1) = elig[c]
+\* the fixture is the one the model assumes (link eligibility follows Add/Flush/Unflush)
+EnvAsModel == Seen => \A c \in Chans : Live(c) => (Last.el[c] = 1) = elig[c]
+\* "the current height": what the real switch takes for the height (the value handlePacketAdd hands to the
+\* links) is the height of the last block epoch it received - also when that is lower than an earlier one
+HeightIsCurrent == Seen => Last.height = height
 \* AddLink / RemoveLink left the link where the model has it
 RegAsModel == Seen => \A c \in Chans : Last.reg[c] = Shown(reg[c])
 \* "after a policy update every link enforces the advertised policy": the real link's policy, field by field
